@@ -37,6 +37,9 @@ where
     ///
     /// If the bounds aren't valid for the given string data then None is returned.
     pub fn new(string: Ptr<String>, bounds: Range<usize>) -> Option<Self> {
+        // as_str relies on the bounds being valid for the string data
+        string.get(bounds.clone())?;
+
         try_from_range(&bounds).map(|bounds| Self {
             data: string,
             bounds,
